@@ -306,6 +306,97 @@ func Run(c *engine.Ctx) {
 		}
 	}
 
+	// size classes: a 40-leaf star, a 40-node chain, a 40-node cycle, a two-level fan (thresholds, recursion depth)
+	c.Group("wide")
+	{
+		var leaves []string
+		for i := 0; i < 40; i++ {
+			leaves = append(leaves, fmt.Sprintf("l%02d", i))
+		}
+		var chain, cycle []gen.EdgeSpec
+		for i := 0; i+1 < len(leaves); i++ {
+			chain = append(chain, gen.EdgeSpec{From: leaves[i], Type: sbom.Edge_dependsOn, To: []string{leaves[i+1]}})
+		}
+		cycle = append(append([]gen.EdgeSpec{}, chain...), gen.EdgeSpec{From: leaves[39], Type: sbom.Edge_dependsOn, To: []string{leaves[0]}})
+		star := []gen.EdgeSpec{{From: "l00", Type: sbom.Edge_contains, To: leaves[1:]}}
+		split := []gen.EdgeSpec{{From: "l00", Type: sbom.Edge_contains, To: leaves[1:20]}, {From: "l05", Type: sbom.Edge_other, To: []string{"l06"}}, {From: "l00", Type: sbom.Edge_contains, To: leaves[15:]}}
+		shapes := map[string][]gen.EdgeSpec{"chain": chain, "cycle": cycle, "star": star, "star-split": split}
+		names := []string{"chain", "cycle", "star", "star-split"}
+		c.Bound("wide", "40-node chain, cycle, star and split star x root sets {none, l00, l20, l00+l39} x starts {l00, l20, l39} x depths 1..41")
+		for _, sn := range names {
+			for _, roots := range [][]string{nil, {"l00"}, {"l20"}, {"l00", "l39"}} {
+				for _, st := range []string{"l00", "l20", "l39"} {
+					spec := gen.ListSpec{Nodes: leaves, Edges: shapes[sn], Roots: roots}
+					sn, st := sn, st
+					c.Case(func() any { return map[string]any{"shape": sn, "roots": roots, "start": st} }, func(t *engine.T) *engine.Violation {
+						obs, v := runAll(t, spec.Build(), st, 41)
+						if v != nil {
+							return v
+						}
+						t.State(fmt.Sprintf("wide|%s|%v|%s", sn, roots, st))
+						t.Outcome("wide " + outcomeClass(obs)[:20])
+						return nil
+					})
+				}
+			}
+		}
+	}
+	// the list changes between two extractions (no extraction may be served from state derived earlier)
+	c.Group("extract-after-mutation")
+	{
+		base := gen.ListSpec{Nodes: abc, Edges: []gen.EdgeSpec{{From: "a", Type: sbom.Edge_contains, To: []string{"b"}}}, Roots: []string{"a"}}
+		muts := map[string]func(nl *sbom.NodeList){
+			"add-edge b->c":      func(nl *sbom.NodeList) { nl.AddEdge(&sbom.Edge{From: "b", Type: sbom.Edge_dependsOn, To: []string{"c"}}) },
+			"extend-target a->c": func(nl *sbom.NodeList) {
+				if len(nl.Edges) > 0 {
+					nl.Edges[0].To = append(nl.Edges[0].To, "c")
+				}
+			},
+			"remove-node b":      func(nl *sbom.NodeList) { nl.RemoveNodes([]string{"b"}) },
+			"add-root c":         func(nl *sbom.NodeList) { nl.RootElements = append(nl.RootElements, "c") },
+			"retarget": func(nl *sbom.NodeList) {
+				if len(nl.Edges) > 0 && len(nl.Edges[0].To) > 0 {
+					nl.Edges[0].To[0] = "c"
+				}
+			},
+			"add-node+edge":      func(nl *sbom.NodeList) { _ = nl.RelateNodeAtID(&sbom.Node{Id: "d", Name: "n-d"}, "b", sbom.Edge_contains) },
+		}
+		var mn []string
+		for k := range muts {
+			mn = append(mn, k)
+		}
+		sort.Strings(mn)
+		c.Bound("extract-after-mutation", fmt.Sprintf("%d in-place mutations between two rounds of all extractions from every start; the second round is judged against the mutated list", len(mn)))
+		for _, m1 := range mn {
+			for _, m2 := range append([]string{""}, mn...) {
+				for _, st := range abc {
+					m1, m2, st := m1, m2, st
+					c.Case(func() any { return map[string]any{"mutations": []string{m1, m2}, "start": st} }, func(t *engine.T) *engine.Violation {
+						nl := base.Build()
+						if _, v := runAll(t, nl, st, 4); v != nil {
+							return v
+						}
+						muts[m1](nl)
+						if _, v := runAll(t, nl, st, 4); v != nil {
+							v.Detail = "after " + m1 + ": " + v.Detail
+							return v
+						}
+						if m2 != "" {
+							muts[m2](nl)
+							if _, v := runAll(t, nl, st, 5); v != nil {
+								v.Detail = "after " + m1 + " and " + m2 + ": " + v.Detail
+								return v
+							}
+						}
+						t.State("mut|" + m1 + "|" + m2 + "|" + st)
+						t.Outcome("after-mutation-ok")
+						return nil
+					})
+				}
+			}
+		}
+	}
+
 	// order independence: every permutation of node list and edge list
 	permGroup := func(group string, ids []string, types []sbom.Edge_Type, nEdges int) {
 		c.Group(group)
